@@ -403,4 +403,9 @@ def table_facts(alg, pairs):
     for a, b in pairs:
         out.append(alg.signs.zf(a, b) == alg.signs.zf(b, a))
         out.append(z3.Implies((a & b) == 0, z3.Not(alg.signs.zf(a, b))))
+        # commutation (L-comm-parity; the orientation factors o(I)o(J)o(I^J) of a custom basis are the same on both sides):
+        #   signs[I,J] signs[J,I] = (-1)^(|I||J| - |I&J|)   whenever non-zero
+        pa, pb, pab = SB.z_popcount(a, W), SB.z_popcount(b, W), SB.z_popcount(a & b, W)
+        out.append(z3.Implies(z3.Not(alg.signs.zf(a, b)),
+                              z3.Xor(alg.signs.nf(a, b), alg.signs.nf(b, a)) == (z3.Extract(0, 0, pa * pb - pab) == 1)))
     return out
